@@ -230,6 +230,49 @@ for _s, _edd, _et in CONFIGS:
        assumes=[ADHOC_SHIMS_DOC], bound="four parameters (int without default, Optional[str]=None, bool, int) with a symbolic description character and a List[int] return entry")(_p1_three(_s, _edd, _et))
 
 
+# P1.types: the type shapes of the property's quantifier (Literal, List, Union, dotted names, nested Optional) -----------------------------
+TYPE_CASES = (("Literal['a', 'b']", "a"), ("Literal['a', 'b']", Ellipsis), ("List[str]", Ellipsis), ("Union[int, str]", 3), ("os.PathLike", Ellipsis),
+              ("collections.OrderedDict", Ellipsis), ("Optional[List[int]]", None), ("Dict[str, int]", Ellipsis), ("Optional[Literal['x', 'y']]", None),
+              ("Callable[[int], str]", Ellipsis), ("float", 3.0), ("int", 10 ** 20), ("complex", Ellipsis), ("str", "a b"), ("Optional[str]", "x"),
+              ("Tuple[int, int]", Ellipsis), ("Optional[Union[int, float]]", 2.5), ("List[Optional[str]]", Ellipsis))
+
+
+def _p1_types(style, edd, et, lo, hi):
+    def body(kind, x):
+        t, d = TYPE_CASES[lo]
+        for k in range(lo + 1, hi + 1):
+            if kind == k:
+                t, d = TYPE_CASES[k]
+        p = {"typ": t, "doc": "the " + chr(x) + " arg"}
+        if d is not Ellipsis:
+            p["default"] = d
+        first = {"typ": "str", "doc": "first arg"}
+        return check(mk_ir([("a", first), ("b", p)], ret={"typ": t, "doc": "same kind"}), style, edd, et)
+
+    return body
+
+
+for _s, _edd, _et in CONFIGS:
+    if _s == "numpydoc" and not _et:
+        continue
+    for _lo in range(0, len(TYPE_CASES), 3):
+        _hi = min(_lo + 2, len(TYPE_CASES) - 1)
+        ob("C01", "P1.types.%s.k%d" % (_cfg_tag(_s, _edd, _et), _lo), {"kind": R(_lo, _hi), "x": PR}, pre="x != 47", T=400, tpath=60,
+           tier="quick" if (_edd and _et and _s != "numpydoc") else "thorough", funcs=FUNCS, assumes=[ADHOC_SHIMS_DOC],
+           bound="two parameters + return entry; the second parameter's (and the return entry's) type is one of %s with/without default; description 'the '+X+' arg' for every printable X except '/'" % ", ".join(t for t, _ in TYPE_CASES[_lo:_hi + 1]),
+           )(_p1_types(_s, _edd, _et, _lo, _hi))
+
+
+# F39: code-quoted expression defaults lose their code quotes in the prose (witness only) --------------------------------------------------
+def f39_witness(kind):
+    t, d = (("List[int]", "```[1, 2]```"), ("int", "```max_iter * 2```"), ("dict", "```{}```"))[kind]
+    return check(mk_ir([("a", {"typ": "str", "doc": "first arg"}), ("b", {"typ": t, "doc": "second arg", "default": d})]), "rest", True, True)
+
+
+ob("C01", "F39.code_quoted_default", {"kind": R(0, 2)}, T=60, tier="witness", funcs=FUNCS, twin=False,
+   bound="witness obligation of known finding F39 (not expected to hold)")(f39_witness)
+
+
 def f21_witness(x):
     return check(mk_ir([("a", {"typ": "int", "doc": "The " + chr(x) + "a"})]), "numpydoc", True, False)
 
